@@ -78,7 +78,7 @@ ASSUMPTIONS = ["tie band: points within 1e-9*scale of the minimum border radius,
                "a point that the rule does not move (nearest border radius > its own) must come back bit-for-bit",
                "sub-pixel k of a pixel with sub size s is row k//s, column k%s of the pixel (row-major, top-left first), centres at "
                "(a+0.5)/s; the layout is checked against BorderRelocator.sub_grid in every case",
-               "the set of border pixels is taken from Mask2D.derive_indexes.border_slim (decided by C10)",
+               "the set of border pixels in use (Mask2D.derive_indexes.border_slim) is held against the definition of C10 (edge pixel + clear axis walk; frame pixels without a masked neighbour may or may not count)",
                "sub-size maps have integer dtype (a float-typed map raises TypeError in the un-jitted code and is not exercised)"]
 QUICK_JOBS = 16
 
@@ -90,7 +90,7 @@ MIN_MONITORS = {"*": {"contract:grid_2d_util.relocated_grid_via_jit_from": 1,
                       "mesh.nearest_border_radius": 1, "mesh.max_radius": 1,
                       "mapper_grids.rectangular_data_grid": 1, "mapper_grids.delaunay_data_grid": 1,
                       "mapper_grids.delaunay_mesh_grid": 1,
-                      "sub_border.count": 1, "sub_border.in_its_border_pixel": 1, "sub_border.farthest_subpixel": 1,
+                      "sub_border.count": 1, "sub_border.pixels_are_the_border": 20, "sub_border.in_its_border_pixel": 1, "sub_border.farthest_subpixel": 1,
                       "sub_border.grid": 1, "border_grid.coordinates": 1}}
 
 NRELOC = {"quick": 1600, "thorough": 40000}
@@ -288,6 +288,18 @@ def check_sub_border(ctx, m, mask, br, ssz, starts, pos, image_grid, geometry):
     sbs, sg, sbg, bg, bs = np.asarray(v[0]), _np(v[1]), _np(v[2]), _np(v[3]), np.asarray(v[4])
     lay = sg.shape == image_grid.shape and ctx.close(sg, image_grid, 1e-9)
     ctx.check(lay, "assumption.sub_grid_layout", mask=m, sub_sizes=ssz, expected=image_grid, got=sg)
+    # "for each border pixel of the mask": the pixels the relocator works with are the border pixels by the definition (edge
+    # pixels with a clear axis walk to the array boundary; C10 decides the rule in full, here the set in use is held against it)
+    from harness.props.c10 import ref_edge_sets, ref_walk
+    must_e, mustnot_e = ref_edge_sets(m)
+    walk = ref_walk(m)
+    slim_of = -np.ones(m.shape, dtype=int)
+    slim_of[~m] = np.arange(int((~m).sum()))
+    must_b = set(slim_of[must_e & walk].tolist())
+    never_b = set(slim_of[(~m) & (mustnot_e | ~walk)].tolist())
+    bs_set = set(int(b) for b in np.asarray(bs).ravel())
+    ctx.check(must_b <= bs_set and not (bs_set & never_b), "sub_border.pixels_are_the_border", mask=m, missing=sorted(must_b - bs_set),
+              not_border=sorted(bs_set & never_b), border_slim=bs)
     okc = (sbs.ndim == 1 and len(sbs) == len(bs) and np.issubdtype(sbs.dtype, np.integer))
     ctx.check(okc, "sub_border.count", mask=m, sub_sizes=ssz, border_slim=bs, got=sbs)
     if not okc or not lay:
